@@ -47,3 +47,25 @@ def run(ctx):
     ctx.floor("C16.decoder-calls", "wire decoder call sites in lumina_node::p2p", len(calls), 8)
     for b, blk in calls:
         ctx.check(b.path in cone.bodies, "C16.rooted", b.path, "wire decoder call lies in the cone of a listed root", site=b.loc(blk), key="C16.rooted|" + root_fn(b.path))
+
+
+DEP_AUDIT = __import__("os").path.join(__import__("os").path.dirname(__import__("os").path.dirname(__import__("os").path.abspath(__file__))), "tables", "panic_audit_deps.json")
+
+
+# the FFT kernels of leopard-codec work on buffers whose shapes encode()/reconstruct() validated; they are
+# data-independent table-driven arithmetic (225 index/arith sites) and are not audited site by site
+DEP_STOP = STOP + ["leopard_codec::encode_inner", "leopard_codec::reconstruct_inner"]
+
+
+def run_thorough(ctx):
+    """Thorough tier: the cone continues into the pinned nmt-rs and leopard-codec (their MIR is extracted
+    from the versions named in /repo/Cargo.lock); every panic-capable site of those two crates that the
+    decode paths reach must be discharged or audited in tables/panic_audit_deps.json."""
+    from engine.facts import DEP_CRATES
+
+    ctx.facts.load_deps()
+    dep = lambda s: ctx.facts.crate_of(s.body.path) in DEP_CRATES  # noqa: E731
+    cone, sites = run_cone(ctx, "C16.dep", ROOTS, 250, stop=DEP_STOP, extra_filter=dep, audit_path=DEP_AUDIT, coverage_key="dependency_cone")
+    nd = len([p for p in cone.bodies if ctx.facts.crate_of(p) in DEP_CRATES])
+    ctx.floor("C16.dep.cone-size", "bodies of nmt-rs / leopard-codec in the decode cone", nd, 20)
+    ctx.extra_coverage["dependency_cone"]["dependency_bodies"] = nd
